@@ -68,6 +68,22 @@ pub fn field_variants(t: &mut Tape, plan: &XzPlan) -> Vec<(XzPlan, &'static str,
             v.push((p, "footer.flags", format!("footer flags say check {} (header {})", other, plan.check_id)));
         }
     }
+    // reserved upper bits in one side's flags only (the low nibble still names the
+    // real check): header and footer then differ although both "mean" the same
+    for hi in [0x10u8, 0x20, 0x40, 0x80, 0xF0] {
+        let mut p = plan.clone();
+        p.ov_hflags = Some([0, plan.check_id | hi]);
+        p.ov_fflags = Some([0, plan.check_id]);
+        v.push((p, "footer.flags", format!("header flags 00 {:02x}, footer flags 00 {:02x}", plan.check_id | hi, plan.check_id)));
+        let mut p = plan.clone();
+        p.ov_fflags = Some([0, plan.check_id | hi]);
+        v.push((p, "footer.flags", format!("header flags 00 {:02x}, footer flags 00 {:02x}", plan.check_id, plan.check_id | hi)));
+    }
+    for b0 in [1u8, 0x80] {
+        let mut p = plan.clone();
+        p.ov_fflags = Some([b0, plan.check_id]);
+        v.push((p, "footer.flags", format!("footer flags {:02x} {:02x}", b0, plan.check_id)));
+    }
     // CRC fields themselves
     let crcs: [(&'static str, fn(&mut XzPlan, u32)); 3] = [
         ("header.crc32", |p, x| p.ov_hcrc = Some(x)),
@@ -276,6 +292,16 @@ fn exec_one(sc: &Scenario, ctx: &mut Ctx) -> Vec<Violation> {
     }
     let field = sc.note.split(" | ").next().unwrap_or("?").to_string();
     ctx.stats.eval(sc.hash(), true, 1);
+    if sc.note.starts_with("none | unmodified") {
+        // the unmodified file must be accepted with the exact content
+        if let Verdict::Panic(p) = &v {
+            return vec![Violation::new("panic", &panic_locus(p), p.clone(), sc)];
+        }
+        if !v.is_ok() || out != sc.b("original") {
+            return vec![Violation::new("rejects_valid_file", "unmodified", v.short(), sc)];
+        }
+        return Vec::new();
+    }
     match &v {
         Verdict::Panic(p) => {
             return vec![Violation::new("panic", &panic_locus(p), format!("{} [{}]", p, sc.note), sc)];
@@ -368,11 +394,9 @@ impl Property for C06 {
         // the unmodified file must be accepted (sanity of the generator)
         {
             let sc = mk(built.bytes.clone(), "none | unmodified file".into());
-            let mut out = Vec::new();
-            let mut r: &[u8] = sc.b("input");
-            let v = call_decoder(EP_XZ, &mut r, &mut out, &OptSpec::default(), &RawSpec::default());
-            if !v.is_ok() || out != built.content {
-                return vec![Violation::new("rejects_valid_file", "unmodified", v.short(), &sc)];
+            let r = exec_one(&sc, ctx);
+            if !r.is_empty() {
+                return r;
             }
         }
         // (a) bit flips
